@@ -65,8 +65,11 @@ def run_property(pid, spec, tier="quick", repo=REPO, quiet=False, write_evidence
             known_keys[k["key"]] = k
     violations = []
     known_hit = {}
+    import re as _re
     for r in results:
         for f in r.findings:
+            # closure numbering shifts when an unrelated closure is added: not part of the identity
+            f.key = _re.sub(r"\{closure#\d+\}", "{closure}", f.key)
             base_rule_key = f.key
             if base_rule_key in known_keys:
                 known_hit.setdefault(base_rule_key, []).append(f)
